@@ -238,8 +238,8 @@ class HostMap:
         def gai(host, port, *a, **k):
             h = host.decode() if isinstance(host, bytes) else host
             self.calls.append((h, port))
-            if h in self.mapping:
-                return self._orig(self.mapping[h], port, *a, **k)
+            if isinstance(h, str) and h.lower() in self.mapping:  # names are case-insensitive
+                return self._orig(self.mapping[h.lower()], port, *a, **k)
             return self._orig(host, port, *a, **k)
 
         socket.getaddrinfo = gai
